@@ -627,12 +627,18 @@ impl FunctionCompiler<'_> {
                 value,
                 ..
             } => {
-                let value = value.and_then(|value| {
-                    let referenced_block_ty =
-                        self.tys[self.loc][self.world_bodies[self.loc.file()][label]];
+                let referenced_block_ty =
+                    self.tys[self.loc][self.world_bodies[self.loc.file()][label]];
 
-                    self.compile_and_cast(value, referenced_block_ty)
-                });
+                let value = match value {
+                    Some(value) => self.compile_and_cast(value, referenced_block_ty),
+                    // `return;` in a function that returns `?void` or `str!void`:
+                    // the block still expects a value, the one `void` converts to
+                    None if !referenced_block_ty.is_zero_sized() => {
+                        self.cast(None, Ty::Void.into(), referenced_block_ty)
+                    }
+                    None => None,
+                };
 
                 self.break_to_label(value, label);
             }
